@@ -130,6 +130,42 @@ def passFn {α : Type} [Zero α] [Add α] [Sub α] (exts cms : List Nat) (k : Na
 
 def workCells (exts : List Nat) : List Cell := allCells (exts.map (· + 1))
 
+/-! ## a marginal pass as data (regenerated: `Gen/DiffGen.lean`, tools/translate_diff.py) -/
+
+/-- a selection along one working axis (extent + 1 entries, the last being the margin) -/
+inductive AxSel | common | margin | uncommon | all
+deriving Repr, DecidableEq
+
+structure DiffFacts where
+  ascending : Bool            -- one pass per dimension, in ascending order
+  written : AxSel × AxSel         -- (along the pass's axis, along every other axis)
+  minuend : AxSel × AxSel
+  summed : AxSel × AxSel
+  sumOverPassAxis : Bool      -- `.sum(axis=len(scaffold) + axis)`
+deriving Repr, DecidableEq
+
+def AxSel.has (s : AxSel) (e cm i : Nat) : Bool :=
+  match s with
+  | .common => i == cm
+  | .margin => i == e
+  | .uncommon => decide (i < e)
+  | .all => true
+
+def AxSel.indices (s : AxSel) (e cm : Nat) : List Nat :=
+  match s with
+  | .common => [cm]
+  | .margin => [e]
+  | .uncommon => List.range e
+  | .all => List.range (e + 1)
+
+/-- the pass the data describe, pointwise: a cell selected by `written` receives (sum over the `minuend` selection) minus
+(sum over the `summed` selection) along the pass's axis; every other cell keeps its value -/
+def passOf {α : Type} [Zero α] [Add α] [Sub α] (f : DiffFacts) (exts cms : List Nat) (k : Nat) (R : Cell → α) (c : Cell) : α :=
+  if f.written.1.has (exts.getD k 0) (cms.getD k 0) (c.getD k 0) then
+    ((f.minuend.1.indices (exts.getD k 0) (cms.getD k 0)).map fun j => R (c.set k j)).sum
+      - ((f.summed.1.indices (exts.getD k 0) (cms.getD k 0)).map fun j => R (c.set k j)).sum
+  else R c
+
 /-- `_compute_common_cells_from_marginal_diffs`: passes along axes 0..k-1 in order -/
 def passes {α : Type} [Zero α] [Add α] [Sub α] (exts cms : List Nat) : Nat → Region α → Region α
   | 0, R => R
